@@ -1358,6 +1358,16 @@ package gocql
 //@   trusted frame condition only: Marshal does not modify memory reachable by its caller
 //@   modifies nothing
 
+// Cassandra's RandomPartitioner: the MD5 digest read as a signed 128-bit number, absolute value - a digest with
+// the top bit set (first byte >= 128) becomes |v - 2^128|, any other digest is the token as it is. (MD5 and the
+// big.Int arithmetic are the libraries'; what is checked is which operations are applied to what.)
+//@ func (p randomPartitioner) Hash
+//@   props C09
+//@   count_calls SetBytes Sub Abs
+//@   before[C09] Sub: sum[0] >= 128 && SetBytes_calls == 1 && Sub_calls == 1 && arg0 == val && arg1 == val && arg2 == maxHashInt
+//@   before[C09] Abs: Sub_calls == 1 && Abs_calls == 1 && arg0 == val && arg1 == val
+//@   at_return[C09] SetBytes_calls == 1 && Sub_calls == ite(sum[0] >= 128, 1, 0) && Abs_calls == Sub_calls
+
 //@ func createRoutingKey
 //@   props C09
 //@   count_calls Marshal
